@@ -345,6 +345,9 @@ func runC04(cfg *vc.Config, rep *vc.Report) {
 	if cfg.Only < 0 && cfg.Shard == 0 {
 		runC04Operators(rep)
 	}
+	if cfg.Only < 0 {
+		runC04Bool(cfg, rep, cfg.Count(3000, 60000))
+	}
 	ctx := context.Background()
 	db, rec := fakesql.Open()
 	stores := map[string]*ledgerstore.Store{"ledgera": ledgerstore.NewStoreForVerif(db, "bucket0", "ledgera"), "ledgerb": ledgerstore.NewStoreForVerif(db, "bucket0", "ledgerb")}
